@@ -1368,3 +1368,50 @@ def c03_write_s390os(path, npages=32, ps=4096):
               ("note.name[0]", D + NOTE + 12, 1, 1), ("vmci[0]", D + VMCI, 1, 1)]
     bounds = sorted({0, 97, hdr_size, D + VMCI, D + NOTE, D + OSI, D + OSI + ps, E, E + 8, len(img)})
     return dict(fields=fields, bounds=bounds, size=len(img))
+
+
+# ---------------------------------------------------------------- C16: 64-bit size fields that reach an allocation
+def c16_write_s390x_elf(path, vmci_addr=0x100, vmci_size=37, note=None, ps=4096):
+    """big-endian s390x ELF core without a VMCOREINFO note: one PT_LOAD of two pages at physical address 0.  The lowcore (page 0)
+    points through LC_OS_INFO (0xe18) to an os_info page at 0x1000 with valid magic and checksum whose VMCOREINFO entry is
+    (vmci_addr, vmci_size) -- or, with note=(namesz, descsz), has no os_info and points through LC_VMCORE_INFO (0xe0c) to an ELF
+    note header with these sizes at 0x1800.  Returns a description of the file."""
+    mem = bytearray(2 * ps)
+    if note is None:
+        mem[0xe18:0xe20] = struct.pack(">Q", ps)
+        osi = bytearray(ps)
+        body = struct.pack(">HHQQ", 1, 1, 0, 0) + struct.pack(">QQI", vmci_addr, vmci_size & M64, 0) + struct.pack(">QQI", 0, 0, 0)
+        osi[12:12 + len(body)] = body
+        osi[0:8] = struct.pack(">Q", 0x4f53494e464f535a)
+        osi[8:12] = struct.pack(">I", s390_cksum32(bytes(osi[12:])))
+        mem[ps:2 * ps] = osi
+        what = "LC_OS_INFO (0xe18) -> os_info page at 0x1000 (magic, checksum valid) with VMCOREINFO entry addr=%#x size=%#x" % (vmci_addr, vmci_size)
+    else:
+        namesz, descsz = note
+        mem[0xe0c:0xe14] = struct.pack(">Q", 0x1800)
+        mem[0x1800:0x1800 + 24] = struct.pack(">III", namesz & 0xffffffff, descsz & 0xffffffff, 0) + b"VMCOREINFO\0\0"
+        what = "LC_OS_INFO NULL, LC_VMCORE_INFO (0xe0c) -> ELF note at 0x1800 with n_namesz=%#x n_descsz=%#x" % (namesz, descsz)
+    write_elf(path, [dict(paddr=0, filesz=2 * ps, memsz=2 * ps, data=bytes(mem))], ps=ps, machine="s390x", be=True)
+    return "dumpgen.c16_write_s390x_elf: s390x big-endian ELF64 core, no notes, one PT_LOAD paddr=0 filesz=memsz=0x2000; lowcore " + what
+
+
+def c16_write_elf_strtab(path, shsize, be=False, machine="x86_64"):
+    """ELF64 core without program headers and with two sections: the null section and .shstrtab (e_shstrndx = 1) whose
+    sh_size is `shsize` (the table in the file is 11 bytes long and NUL-terminated).  Returns a description of the file."""
+    E = ">" if be else "<"
+    strtab = b"\0.shstrtab\0"
+    ehsz, shsz = 64, 64
+    stroff = ehsz
+    shoff = (stroff + len(strtab) + 7) & ~7
+    sh = struct.pack(E + "IIQQQQIIQQ", 0, 0, 0, 0, 0, 0, 0, 0, 0, 0) + \
+        struct.pack(E + "IIQQQQIIQQ", 1, 3, 0, 0, stroff, shsize & M64, 0, 0, 1, 0)
+    ident = b"\x7fELF" + bytes([2, 2 if be else 1, 1, 0]) + b"\0" * 8
+    eh = ident + struct.pack(E + "HHIQQQIHHHHHH", 4, EM[machine], 1, 0, 0, shoff, 0, ehsz, 56, 0, shsz, 2, 1)
+    img = bytearray(shoff + len(sh))
+    img[0:len(eh)] = eh
+    img[stroff:stroff + len(strtab)] = strtab
+    img[shoff:] = sh
+    with open(path, "wb") as f:
+        f.write(img)
+    return ("dumpgen.c16_write_elf_strtab: %s ELF64 core, e_phnum=0, e_shnum=2, e_shstrndx=1, section 1 = SHT_STRTAB at file offset %#x "
+            "with sh_size=%#x (the file is %#x bytes long)" % (machine, stroff, shsize & M64, len(img)))
